@@ -42,4 +42,17 @@ theorem mp_fresh_epochs (rs : List (EpochRun c (init c))) :
 
 end
 
+/-- An epoch run from a schedule that is checked to go through, to keep every worker alive and to reach
+`StopIteration` (examples). -/
+def EpochRun.ofSchedule (c : Cfg) (s0 : State) (as : List Action) (hn : NoReset as)
+    (h : (MP.run c s0 as).isSome = true)
+    (hd : Obs.workerDied ∉ ((MP.run c s0 as).get h).obs) (hs : Obs.stop ∈ ((MP.run c s0 as).get h).obs) :
+    EpochRun c s0 :=
+  { as := as, s := (MP.run c s0 as).get h, noReset := hn, run := (Option.some_get h).symm, alive := hd, stopped := hs }
+
+/-- A complete epoch of `MPR.exMap` from a fresh instance. -/
+def exMapFull : List Action :=
+  [.work 0, .work 0, .work 1, .work 1, .next, .recv, .work 0, .next, .recv, .recv, .work 1, .next, .work 0, .next,
+   .recv, .next, .recv, .next, .recv, .next, .recv, .next]
+
 end TDV.E2E
